@@ -2015,8 +2015,19 @@ class Comparator:
         if type(obj1) is not type(obj2) or len(obj1) != len(obj2):
             return False
         if isinstance(obj1, set):
-            # no order to go by: equal sets of items that can be compared
-            return obj1 == obj2 and all(cls.is_equal(o, o) for o in obj1)
+            # no order to go by: every item has a partner of its own that
+            # the Comparator calls equal (the one the set itself finds for
+            # it is tried first, which keeps the usual case linear)
+            found = {o: o for o in obj2}
+            used = set()
+            for o1 in obj1:
+                o2 = found.get(o1, found)
+                if o2 is found or id(o2) in used or not cls.is_equal(o1, o2):
+                    o2 = next((c for c in obj2 if id(c) not in used and cls.is_equal(o1, c)), found)
+                    if o2 is found:
+                        return False
+                used.add(id(o2))
+            return True
         for o1, o2 in zip(obj1, obj2):
             if not cls.is_equal(o1, o2):
                 return False
